@@ -202,6 +202,13 @@ pub fn try_cleanup_stale_authority_files(
     rip_kernel::verif::point("auth.stale.enter", || serde_json::json!({}));
 
     if !lock_path.exists() {
+        // The dead authority's lock is already gone (a cleaner died between its two renames). Its
+        // meta file alone must not keep the store from being started again.
+        if let Ok(Some(meta)) = read_authority_meta(&data_dir) {
+            if meta.pid == expected_pid {
+                return Ok(fs::remove_file(&meta_path).is_ok());
+            }
+        }
         return Ok(false);
     }
 
